@@ -608,7 +608,7 @@ static inline void safeCleanup() {
 // Runs cases [lo,hi) ; one JSON line per case to `out`.
 static inline int workerMain(int argc, char** argv, const char* prop, CaseFn fn) {
     uint64_t seed = 20260922; long lo = 0, hi = 1; bool thorough = false; const char* outp = nullptr;
-    long nsamples = 2;
+    long nsamples = 2; unsigned caseTimeout = 150;   // generous per-case wall-clock watchdog (SIGALRM -> the driver reports 'inconclusive', retries once)
     for (int i = 1; i < argc; i++) {
         std::string a = argv[i];
         if (a == "--seed" && i + 1 < argc) seed = strtoull(argv[++i], nullptr, 10);
@@ -617,12 +617,14 @@ static inline int workerMain(int argc, char** argv, const char* prop, CaseFn fn)
         else if (a == "--tier" && i + 1 < argc) thorough = (std::string(argv[++i]) == "thorough");
         else if (a == "--out" && i + 1 < argc) outp = argv[++i];
         else if (a == "--samples" && i + 1 < argc) nsamples = atol(argv[++i]);
+        else if (a == "--case-timeout" && i + 1 < argc) caseTimeout = unsigned(atol(argv[++i]));
     }
     FILE* out = outp ? fopen(outp, "a") : stdout;
     if (!out) { fprintf(stderr, "cannot open %s\n", outp); return 2; }
     g_out = out;
     for (long idx = lo; idx < hi; idx++) {
         fprintf(out, "{\"t\":\"begin\",\"idx\":%ld}\n", idx); fflush(out);
+        alarm(caseTimeout);
         Ctx c; c.prop = prop; c.seed = seed; c.idx = idx; c.thorough = thorough;
         c.rng.reseed(caseSeed(seed, prop, idx));
         g_phase.clear();
@@ -643,6 +645,7 @@ static inline int workerMain(int argc, char** argv, const char* prop, CaseFn fn)
             verdict = "viol"; key = "unexpected-throw"; detail = std::string("threw const char*: ") + s;
         }
         safeCleanup();
+        alarm(0);
         std::string line = "{\"t\":\"case\",\"idx\":" + tos(idx) + ",\"verdict\":" + jstr(verdict);
         if (!key.empty()) line += ",\"key\":" + jstr(key);
         if (!detail.empty()) line += ",\"detail\":" + jstr(detail);
